@@ -40,5 +40,10 @@ CHECKS += [
          text="47 public entry points (fit / fit_using_array / enroll / score / transform / project / acc_stats / linear_scoring / statistics addition, numpy, dask-array and dask-bag inputs) are chained in every order up to the tier's depth on one shared world of inputs; after every call all inputs must be bit-identical, the result must equal the result on fresh inputs, and no parameter array may share memory with an input; per entry point the inputs are finally overwritten in place and the returned model must not change.",
          note=TRUST),
 ]
+CHECKS += [
+    dict(id="C20", technique="bounded exhaustive enumeration (data incl. large offsets x centroid sets x presentations x every row composition) on the real code vs exact rational arithmetic",
+         text="For every data set x offset x centroid set the reported squared distances, predicted labels (ties excluded exactly), per-cluster weights and biased variances are compared with exact rational values, for the batch, every single sample and every row composition of a Dask array; a GMM initialised from the k-means result must start from exactly these centroids / variances (floored) / weights and its first EM step must match the definition.",
+         note=TRUST),
+]
 _PENDING = "check not built yet in this round (planned, see DESIGN.md section 10); not claimed until it runs clean"
 NOT_APPLICABLE = [dict(property_id="C%02d" % i, reason=_PENDING) for i in range(1, 21) if "C%02d" % i not in {c["id"] for c in CHECKS}]
